@@ -1170,6 +1170,58 @@ theorem vinv_step (s : GState K) (hr : List (VCall K)) (c : VCall K) (hd : c.Dis
         · refine (h id).congr (lookup_store_ne _ _ (fun h' => hi h'.symm)) (by simp [vLiveRev]) ?_
           simp [vSinceRev, hp, hi]
 
+/-- the vector timestamp never moves backwards either: across any single call other than
+    `Flush id`, as long as the id stays present -/
+theorem tv_ts_step_monotone (s : GState K) (c : VCall K) (id : String) (tv tv' : TV K)
+    (hl : lookup s.vecs id = some tv) (hl' : lookup (stepV s c).1.vecs id = some tv')
+    (hc : c ≠ .flush id) : tv.ts ≤ tv'.ts := by
+  have same : lookup (stepV s c).1.vecs id = lookup s.vecs id → tv.ts ≤ tv'.ts := by
+    intro h; rw [h, hl] at hl'; cases hl'; exact Nat.le_refl _
+  cases c with
+  | createNamed i =>
+    apply same
+    simp only [stepV, tvCreateNamed]
+    split
+    · rfl
+    · rename_i hn
+      refine lookup_store_ne _ _ ?_
+      rintro rfl; rw [hl] at hn; simp at hn
+  | flush i =>
+    apply same
+    have hi : id ≠ i := by rintro rfl; exact hc rfl
+    simp only [stepV, tvFlush]
+    split
+    · rfl
+    · exact lookup_store_ne _ _ hi
+  | delete i =>
+    simp only [stepV, tvDelete] at hl'
+    split at hl'
+    · by_cases hi : id = i
+      · subst hi; rw [lookup_erase, if_pos rfl] at hl'; cases hl'
+      · apply same
+        simp only [stepV, tvDelete]
+        rename_i hs
+        rw [if_pos hs, lookup_erase, if_neg hi]
+    · rw [hl] at hl'; cases hl'; exact Nat.le_refl _
+  | update i ts es =>
+    simp only [stepV] at hl' ⊢
+    rw [tvUpdate_eq] at hl'
+    split at hl'
+    · rw [hl] at hl'; cases hl'; exact Nat.le_refl _
+    · rename_i tvi hi
+      split at hl'
+      · rw [hl] at hl'; cases hl'; exact Nat.le_refl _
+      · simp only at hl'
+        by_cases hid : id = i
+        · subst hid
+          rw [lookup_store_self] at hl'
+          rw [hl] at hi
+          cases hi; cases hl'
+          show tv.ts ≤ max tv.ts ts
+          omega
+        · rw [lookup_store_ne _ _ hid, hl] at hl'
+          cases hl'; exact Nat.le_refl _
+
 /-- the store invariant for vectors -/
 theorem tv_run_invariant (h : List (VCall K)) (hd : ∀ c ∈ h, c.Distinct) (id : String) :
     match lookup (runV {} h).vecs id with
